@@ -221,6 +221,47 @@ def main(ctx: Ctx) -> int:
         cov["named_argument_orders_checked"] = nord
     except Exception as e:   # noqa
         ctx.notes.append(f"named-argument orders could not be read: {type(e).__name__}: {str(e)[:100]}")
+    # the dust-extinction helper of the UCLCHEM CO photodissociation law (GetGrainScattering, after UCLCHEM's `scatter`): the generated function
+    # is compiled and run on an Av x wavelength grid; which of its two fits answers is decided by the optical depth AT THE WAVELENGTH
+    # (tl = Av / 1.086 * xlamda(lambda)): the single exponential below 1, the five-term sum from 1 on.  Coefficients are read from the source.
+    try:
+        import math as _math
+        import re as _re
+        import subprocess as _sp
+        from common import SHIM, compile_cpp
+        outs = ctx.scratch / "r" / "scatter"
+        render(nett, "cvode", "dense", outs)
+        body = creader.strip_comments((outs / "src/naunet_physics.cpp").read_text())
+        body = body[body.index("GetGrainScattering"):]
+        arrs = {m_.group(1): [float(x_) for x_ in m_.group(2).split(",")] for m_ in _re.finditer(r"double\s+(c|k)\s*\[\s*6\s*\]\s*=\s*\{([^}]*)\}", body[:1500])}
+        drv = ctx.scratch / "scatter_driver.cpp"
+        drv.write_text('#include <cstdio>\n#include "naunet_physics.h"\ndouble xlamda(double);\nint main() {\n'
+                       '  double avs[] = {0.01, 0.05, 0.2, 0.3, 0.5, 0.8, 1.0, 1.086, 1.5, 2.0, 3.0, 10.0, 50.0};\n'
+                       '  double ls[] = {913.0, 950.0, 1000.0, 1076.0, 1300.0, 1500.0, 2200.0, 5500.0, 20000.0};\n'
+                       '  for (double av : avs) for (double l : ls) printf("%.17g %.17g %.17g %.17g\\n", av, l, xlamda(l), GetGrainScattering(av, l));\n  return 0;\n}\n')
+        exe = ctx.scratch / "scatter_driver"
+        pc = compile_cpp([outs / "src" / f_ for f_ in ("naunet_physics.cpp", "naunet_constants.cpp", "naunet_utilities.cpp")] + [drv], [SHIM / "include", outs / "include"], exe)
+        if pc.returncode != 0 or set(arrs) != {"c", "k"}:
+            ctx.notes.append(f"the scattering helper could not be compiled / read: {pc.stderr[-200:]}")
+        else:
+            nsc = 0
+            close = lambda x_, y_: x_ == y_ or abs(x_ - y_) <= 1e-9 * max(abs(x_), abs(y_))
+            for ln in _sp.run([str(exe)], capture_output=True, text=True, timeout=60).stdout.splitlines():
+                av, lam, xl, got = (float(x_) for x_ in ln.split())
+                tl = av / 1.086 * xl
+                if abs(tl - 1.0) < 1e-9:
+                    continue
+                single = arrs["c"][0] * _math.exp(-arrs["k"][0] * tl) if arrs["k"][0] * tl < 35.0 else 0.0
+                five = sum(arrs["c"][i_] * _math.exp(-arrs["k"][i_] * tl) for i_ in range(1, 6) if arrs["k"][i_] * tl < 35.0)
+                nsc += 1
+                traces.append({"tid": len(traces) + 1, "fmt": "scatter", "code": 0, "a": pair(0.0), "b": pair(0.0), "c": pair(0.0), "zb": True, "zc": True, "sh": "",
+                               "obs": {"refused": False, "valid": True, "tree": ["none"], "expr": "", "err": "", "below": tl < 1.0, "single": close(got, single),
+                                       "five": close(got, five)},
+                               "line": f"GetGrainScattering(Av={av}, lambda={lam}) = {got!r}; depth at the wavelength {tl!r}: single exponential {single!r}, five-term sum {five!r}",
+                               "vals": [0.0, 0.0, 0.0], "paired": False, "scatter": True})
+            cov["scattering_helper_points_checked"] = nsc
+    except Exception as e:   # noqa
+        ctx.notes.append(f"the scattering helper could not be checked: {type(e).__name__}: {str(e)[:100]}")
     v = validate_traces(ctx, "Trace_RateLaws.tla", "Trace_RateLaws.cfg",
                         [{k: t[k] for k in ("tid", "fmt", "code", "a", "b", "c", "zb", "zc", "sh", "obs")} for t in traces], "laws", chunk=2000)
     cov["traces_validated_against_impl"] = len(traces)
